@@ -239,7 +239,8 @@ def balanced_pose(model, g, rel):
         for _ in range(5):
             s0 = ssum(r)
             if abs(s0) < 2e-7:
-                return r.tolist()
+                # only the height was searched: keep the pose only if it is still inside the property's workspace (within 15% of neutral)
+                return r.tolist() if abs(r[2] / model.h - 1.0) <= 0.15 else None
             r2 = r.copy()
             r2[2] -= s0
             s1 = ssum(r2)
